@@ -178,7 +178,7 @@ func firstDiff(a, b string) string {
 }
 
 // the same content split over two files in different formats: the importing file and the imported one
-func crossImportCase(col *Collector, rng *rand.Rand, fa, fb string, emptyMain, viaDir bool) {
+func crossImportCase(col *Collector, rng *rand.Rand, fa, fb string, emptyMain, viaDir, varsOnly bool) {
 	dir := newScratchDir("c16x")
 	defer os.RemoveAll(dir)
 	a := map[string]interface{}{
@@ -197,6 +197,13 @@ func crossImportCase(col *Collector, rng *rand.Rand, fa, fb string, emptyMain, v
 		a["tasks"], a["pipelines"] = map[string]interface{}{}, map[string]interface{}{}
 		want = []string{"- pb", "- tb"}
 	}
+	if varsOnly {
+		// the importing file holds nothing but variables (its only mapping) and the import
+		delete(a, "tasks")
+		delete(a, "pipelines")
+		a["variables"] = map[string]interface{}{"FromA": "yes", "Shared": "a"}
+		want = []string{"- pb", "- tb"}
+	}
 	otherPath := filepath.Join(dir, "other."+fb)
 	if viaDir {
 		// the other file is reached through a directory import (only *.yaml files are read from a directory)
@@ -209,7 +216,7 @@ func crossImportCase(col *Collector, rng *rand.Rand, fa, fb string, emptyMain, v
 	os.WriteFile(filepath.Join(dir, "main."+fa), []byte(ta), 0644)
 	os.WriteFile(otherPath, []byte(tb), 0644)
 	def, _, err := loadDecoded(filepath.Join(dir, "main."+fa))
-	cs := Case{Tags: []string{"cross-import", fmt.Sprintf("emptyMain=%v", emptyMain), fmt.Sprintf("viaDir=%v", viaDir)}, NonTrivial: true,
+	cs := Case{Tags: []string{"cross-import", fmt.Sprintf("emptyMain=%v", emptyMain), fmt.Sprintf("viaDir=%v", viaDir), fmt.Sprintf("varsOnly=%v", varsOnly)}, NonTrivial: true,
 		Replay: fmt.Sprintf("main.%s imports other.%s emptyMain=%v viaDir=%v: %s", fa, fb, emptyMain, viaDir, strings.ReplaceAll(ta, "\n", "\\n"))}
 	r := runTaskctl(dir, nil, 15*time.Second, "-c", filepath.Join(dir, "main."+fa), "list")
 	switch {
@@ -265,11 +272,13 @@ func runC16(col *Collector, tier string, seed int64) {
 	parallel(len(jobs), 8, func(i int) { fmtCase(col, jobs[i].cfg, jobs[i].tasks, jobs[i].pipes, jobs[i].tag, jobs[i].run) })
 	for _, fa := range formats {
 		for _, fb := range formats {
-			crossImportCase(col, rng, fa, fb, false, false)
-			crossImportCase(col, rng, fa, fb, true, false)
+			crossImportCase(col, rng, fa, fb, false, false, false)
+			crossImportCase(col, rng, fa, fb, true, false, false)
+			crossImportCase(col, rng, fa, fb, false, false, true)
 			if fb == "yaml" {
-				crossImportCase(col, rng, fa, fb, false, true)
-				crossImportCase(col, rng, fa, fb, true, true)
+				crossImportCase(col, rng, fa, fb, false, true, false)
+				crossImportCase(col, rng, fa, fb, true, true, false)
+				crossImportCase(col, rng, fa, fb, false, true, true)
 			}
 			for _, fc := range formats {
 				multiImportCase(col, fa, fb, fc, false)
